@@ -57,6 +57,7 @@ Definition where_ (snap kept : list Z) : list nat :=
 
 Section TwoIndex.
   Variable tab : Type.
+  Variable V : Type.                                        (* results of read-only by-ID queries *)
   Variables ids1 ids2 : tab -> list Z.                      (* current row IDs / column IDs *)
   Variables sub1 sub2 : list Z -> list Z -> tab -> res tab. (* snapshot -> request -> table -> subset *)
 
@@ -68,7 +69,14 @@ Section TwoIndex.
   Inductive op :=
   | Mut (f : tab -> res (tab * act * act))           (* never consults an index *)
   | Sub (r1 r2 : option (list Z)) (inplace : bool)   (* subset(samples=r1, variants|names=r2, inplace) *)
-  | Index (b1 b2 : bool).                            (* index(samples=b1, variants|names=b2) *)
+  | Index (b1 b2 : bool)                             (* index(samples=b1, variants|names=b2) *)
+  | Look (r1 r2 : option (list Z)) (view : tab -> V).
+      (* a read-only by-ID query (PhenoSimulator.run, Haplotypes.transform on the genotypes): it calls
+         subset(..., inplace=False) on the object - which builds the object's indexes - and returns a
+         function of the copy; the copy itself is not handed out *)
+
+  (* what an operation returns: nothing, a new object (its table), or a query result *)
+  Inductive out := ONone | OCopy (t : tab) | OView (v : V).
 
   Definition apply_act (a : act) (c : option (list Z)) : option (list Z) :=
     match a with
@@ -89,45 +97,57 @@ Section TwoIndex.
   Definition snap_of (c : option (list Z)) : list Z := match c with Some s => s | None => [] end.
   Definition is_some {A} (x : option A) : bool := match x with Some _ => true | None => false end.
 
-  Definition m_step (o : obj) (p : op) : res (obj * option tab) :=
+  Definition m_step (o : obj) (p : op) : res (obj * out) :=
     let t := o_tab o in
     match p with
     | Mut f =>
         bind (f t) (fun r => let '(t', a1, a2) := r in
-          Ok (mko t' (apply_act a1 (o_c1 o)) (apply_act a2 (o_c2 o)), None))
+          Ok (mko t' (apply_act a1 (o_c1 o)) (apply_act a2 (o_c2 o)), ONone))
     | Sub r1 r2 inplace =>
         bind (ensure (is_some r1) (o_c1 o) (ids1 t)) (fun c1 =>
         bind (ensure (is_some r2) (o_c2 o) (ids2 t)) (fun c2 =>
         bind (match r1 with Some req => sub1 (snap_of c1) req t | None => Ok t end) (fun t1 =>
         bind (match r2 with Some req => sub2 (snap_of c2) req t1 | None => Ok t1 end) (fun t2 =>
         if inplace then
-          Ok (mko t2 (if is_some r1 then None else c1) (if is_some r2 then None else c2), None)
-        else Ok (mko t c1 c2, Some t2)))))
+          Ok (mko t2 (if is_some r1 then None else c1) (if is_some r2 then None else c2), ONone)
+        else Ok (mko t c1 c2, OCopy t2)))))
     | Index b1 b2 =>
         bind (ensure b1 (o_c1 o) (ids1 t)) (fun c1 =>
         bind (ensure b2 (o_c2 o) (ids2 t)) (fun c2 =>
-        Ok (mko t c1 c2, None)))
+        Ok (mko t c1 c2, ONone)))
+    | Look r1 r2 view =>
+        bind (ensure (is_some r1) (o_c1 o) (ids1 t)) (fun c1 =>
+        bind (ensure (is_some r2) (o_c2 o) (ids2 t)) (fun c2 =>
+        bind (match r1 with Some req => sub1 (snap_of c1) req t | None => Ok t end) (fun t1 =>
+        bind (match r2 with Some req => sub2 (snap_of c2) req t1 | None => Ok t1 end) (fun t2 =>
+        Ok (mko t c1 c2, OView (view t2))))))
     end.
 
   (* abstract: no caches; lookups search the current IDs; duplicate IDs are reported *)
   Definition chk (want : bool) (ids : list Z) : res unit :=
     if want && negb (nodupZ ids) then Err E_Value else Ok tt.
 
-  Definition a_step (t : tab) (p : op) : res (tab * option tab) :=
+  Definition a_step (t : tab) (p : op) : res (tab * out) :=
     match p with
-    | Mut f => bind (f t) (fun r => let '(t', _, _) := r in Ok (t', None))
+    | Mut f => bind (f t) (fun r => let '(t', _, _) := r in Ok (t', ONone))
     | Sub r1 r2 inplace =>
         bind (chk (is_some r1) (ids1 t)) (fun _ =>
         bind (chk (is_some r2) (ids2 t)) (fun _ =>
         bind (match r1 with Some req => sub1 (ids1 t) req t | None => Ok t end) (fun t1 =>
         bind (match r2 with Some req => sub2 (ids2 t1) req t1 | None => Ok t1 end) (fun t2 =>
-        if inplace then Ok (t2, None) else Ok (t, Some t2)))))
+        if inplace then Ok (t2, ONone) else Ok (t, OCopy t2)))))
     | Index b1 b2 =>
-        bind (chk b1 (ids1 t)) (fun _ => bind (chk b2 (ids2 t)) (fun _ => Ok (t, None)))
+        bind (chk b1 (ids1 t)) (fun _ => bind (chk b2 (ids2 t)) (fun _ => Ok (t, ONone)))
+    | Look r1 r2 view =>
+        bind (chk (is_some r1) (ids1 t)) (fun _ =>
+        bind (chk (is_some r2) (ids2 t)) (fun _ =>
+        bind (match r1 with Some req => sub1 (ids1 t) req t | None => Ok t end) (fun t1 =>
+        bind (match r2 with Some req => sub2 (ids2 t1) req t1 | None => Ok t1 end) (fun t2 =>
+        Ok (t, OView (view t2))))))
     end.
 
   (* a history: after every operation the contents and the operation's result are visible *)
-  Fixpoint m_run (o : obj) (ops : list op) : list (res (tab * option tab)) :=
+  Fixpoint m_run (o : obj) (ops : list op) : list (res (tab * out)) :=
     match ops with
     | [] => []
     | p :: r => match m_step o p with
@@ -136,7 +156,7 @@ Section TwoIndex.
                 end
     end.
 
-  Fixpoint a_run (t : tab) (ops : list op) : list (res (tab * option tab)) :=
+  Fixpoint a_run (t : tab) (ops : list op) : list (res (tab * out)) :=
     match ops with
     | [] => []
     | p :: r => match a_step t p with
@@ -144,28 +164,105 @@ Section TwoIndex.
                 | Err k => [Err k]
                 end
     end.
+  (* ---- histories that go on after a caught exception ---------------------------------
+     index() stores the dictionary it has just built BEFORE it checks it for duplicate IDs:
+       self._samp_idx = dict(zip(self.samples, range(len(self.samples))))
+       if len(self._samp_idx) < len(self.samples): ... raise ValueError
+     so the ValueError leaves a populated index behind, and the next index() call returns at
+     once.  [heal = true]: the repaired index() discards the dictionary before it raises.
+     Every other failing operation of the alphabet raises before it has changed anything
+     (append: np.concatenate; the non-discarding checks; merge_variants).                 *)
+  Definition idx_fail (heal b1 b2 : bool) (o : obj) : obj :=
+    let t := o_tab o in
+    match ensure b1 (o_c1 o) (ids1 t) with
+    | Err _ => mko t (if heal then None else Some (ids1 t)) (o_c2 o)
+    | Ok c1 =>
+        match ensure b2 (o_c2 o) (ids2 t) with
+        | Err _ => mko t c1 (if heal then None else Some (ids2 t))
+        | Ok c2 => mko t c1 c2
+        end
+    end.
+
+  (* the object an operation that raised leaves behind *)
+  Definition fail_obj (heal : bool) (o : obj) (p : op) : obj :=
+    match p with
+    | Mut _ => o
+    | Sub r1 r2 _ => idx_fail heal (is_some r1) (is_some r2) o
+    | Look r1 r2 _ => idx_fail heal (is_some r1) (is_some r2) o
+    | Index b1 b2 => idx_fail heal b1 b2 o
+    end.
+
+  Definition m_stepx (heal : bool) (o : obj) (p : op) : obj * res out :=
+    match m_step o p with
+    | Ok (o', r) => (o', Ok r)
+    | Err k => (fail_obj heal o p, Err k)
+    end.
+
+  (* abstract: an operation that raises changes nothing *)
+  Definition a_stepx (t : tab) (p : op) : tab * res out :=
+    match a_step t p with
+    | Ok (t', r) => (t', Ok r)
+    | Err k => (t, Err k)
+    end.
+
+  (* a ValueError (the documented exception of every operation here) is caught and the
+     history goes on; any other exception ends it *)
+  Fixpoint m_runx (heal : bool) (o : obj) (ops : list op) : list (res (tab * out)) :=
+    match ops with
+    | [] => []
+    | p :: r => match m_stepx heal o p with
+                | (o', Ok x) => Ok (o_tab o', x) :: m_runx heal o' r
+                | (o', Err k) => Err k :: (if k =? E_Value then m_runx heal o' r else [])
+                end
+    end.
+
+  Fixpoint a_runx (t : tab) (ops : list op) : list (res (tab * out)) :=
+    match ops with
+    | [] => []
+    | p :: r => match a_stepx t p with
+                | (t', Ok x) => Ok (t', x) :: a_runx t' r
+                | (t', Err k) => Err k :: (if k =? E_Value then a_runx t' r else [])
+                end
+    end.
 End TwoIndex.
 
-Arguments Mut {tab} f.
-Arguments Sub {tab} r1 r2 inplace.
-Arguments Index {tab} b1 b2.
+Arguments Mut {tab V} f.
+Arguments Sub {tab V} r1 r2 inplace.
+Arguments Index {tab V} b1 b2.
+Arguments Look {tab V} r1 r2 view.
+Arguments ONone {tab V}.
+Arguments OCopy {tab V} t.
+Arguments OView {tab V} v.
 Arguments mko {tab} o_tab o_c1 o_c2.
 Arguments o_tab {tab} o.
 Arguments o_c1 {tab} o.
 Arguments o_c2 {tab} o.
 
-(* ======================================================================== *)
-(* several objects: a copying subset returns a NEW object; the history may go on with
-   any of them.  In the code the copy is built by self.__class__(fname, log): its caches
-   start absent and it shares no mutable look-up state with its parent, so a step on one
-   object leaves every other object as it was.                                           *)
+(* a run cut after its first exception *)
+Fixpoint cut {A} (l : list (res A)) : list (res A) :=
+  match l with
+  | [] => []
+  | Ok x :: r => Ok x :: cut r
+  | Err k :: _ => [Err k]
+  end.
 
-Inductive xop (O : Type) := XOn (p : O) | XSwitch (k : nat).
+(* ======================================================================== *)
+(* several objects: a copying subset returns a NEW object, and so does the class method
+   merge_variants; the history may go on with any of them.  In the code the new object is
+   built by self.__class__(fname, log) resp. cls(kwargs): its caches start absent and it
+   shares no mutable look-up state with the objects it came from, so a step on one object
+   leaves every other object as it was.                                                  *)
+
+Inductive xop (O : Type) :=
+| XOn (p : O)                (* an operation on the object in focus *)
+| XSwitch (k : nat)          (* go on with object k *)
+| XMerge (ks : list nat).    (* cls.merge_variants((objects ks)): a new object; the focus stays *)
 Arguments XOn {O} p.
 Arguments XSwitch {O} k.
+Arguments XMerge {O} ks.
 
 Definition xmap {O O'} (f : O -> O') (x : xop O) : xop O' :=
-  match x with XOn p => XOn (f p) | XSwitch k => XSwitch k end.
+  match x with XOn p => XOn (f p) | XSwitch k => XSwitch k | XMerge ks => XMerge ks end.
 
 Fixpoint replace_nth {A} (n : nat) (x : A) (l : list A) : list A :=
   match l, n with
@@ -174,43 +271,68 @@ Fixpoint replace_nth {A} (n : nat) (x : A) (l : list A) : list A :=
   | y :: r, S m => y :: replace_nth m x r
   end.
 
+Fixpoint pick {A} (l : list A) (ks : list nat) : option (list A) :=
+  match ks with
+  | [] => Some []
+  | k :: r => match nth_error l k, pick l r with
+              | Some x, Some t => Some (x :: t)
+              | _, _ => None
+              end
+  end.
+
 Section Pool.
   Variable tab : Type.
+  Variable V : Type.
   Variables ids1 ids2 : tab -> list Z.
   Variables sub1 sub2 : list Z -> list Z -> tab -> res tab.
+  Variable merge : list tab -> res tab.     (* merge_variants on the tables; consults no index *)
 
-  (* objs: object 0 is the one the history started with, every copying subset appends the
-     object it returned; f: the object the next operation is applied to *)
-  Definition pool_m_step (objs : list (obj tab)) (f : nat) (x : xop (op tab))
-    : res (list (obj tab) * nat * option tab) :=
+  Definition new_objs (r : out tab V) : list (obj tab) :=
+    match r with OCopy t => [mko t None None] | _ => [] end.
+  Definition new_tabs (r : out tab V) : list tab :=
+    match r with OCopy t => [t] | _ => [] end.
+
+  (* objs: object 0 is the one the history started with, every copying subset and every merge
+     appends the object it returned; f: the object the next operation is applied to *)
+  Definition pool_m_step (objs : list (obj tab)) (f : nat) (x : xop (op tab V))
+    : res (list (obj tab) * nat * out tab V) :=
     match x with
-    | XSwitch k => match nth_error objs k with Some _ => Ok (objs, k, None) | None => Err E_Index end
+    | XSwitch k => match nth_error objs k with Some _ => Ok (objs, k, ONone) | None => Err E_Index end
     | XOn p =>
         match nth_error objs f with
         | None => Err E_Index
         | Some o =>
-            bind (m_step tab ids1 ids2 sub1 sub2 o p) (fun r => let '(o', out) := r in
-              Ok (replace_nth f o' objs
-                    ++ match out with Some t => [mko t None None] | None => [] end, f, out))
+            bind (m_step tab V ids1 ids2 sub1 sub2 o p) (fun r => let '(o', out) := r in
+              Ok (replace_nth f o' objs ++ new_objs out, f, out))
+        end
+    | XMerge ks =>
+        match pick objs ks with
+        | None => Err E_Index
+        | Some os => bind (merge (map o_tab os)) (fun t => Ok (objs ++ [mko t None None], f, OCopy t))
         end
     end.
 
-  Definition pool_a_step (ts : list tab) (f : nat) (x : xop (op tab))
-    : res (list tab * nat * option tab) :=
+  Definition pool_a_step (ts : list tab) (f : nat) (x : xop (op tab V))
+    : res (list tab * nat * out tab V) :=
     match x with
-    | XSwitch k => match nth_error ts k with Some _ => Ok (ts, k, None) | None => Err E_Index end
+    | XSwitch k => match nth_error ts k with Some _ => Ok (ts, k, ONone) | None => Err E_Index end
     | XOn p =>
         match nth_error ts f with
         | None => Err E_Index
         | Some t =>
-            bind (a_step tab ids1 ids2 sub1 sub2 t p) (fun r => let '(t', out) := r in
-              Ok (replace_nth f t' ts ++ match out with Some c => [c] | None => [] end, f, out))
+            bind (a_step tab V ids1 ids2 sub1 sub2 t p) (fun r => let '(t', out) := r in
+              Ok (replace_nth f t' ts ++ new_tabs out, f, out))
+        end
+    | XMerge ks =>
+        match pick ts ks with
+        | None => Err E_Index
+        | Some l => bind (merge l) (fun t => Ok (ts ++ [t], f, OCopy t))
         end
     end.
 
   (* after every step: the contents of the object now in focus, and the step's result *)
-  Fixpoint pool_m_run (objs : list (obj tab)) (f : nat) (ops : list (xop (op tab)))
-    : list (res (tab * option tab)) :=
+  Fixpoint pool_m_run (objs : list (obj tab)) (f : nat) (ops : list (xop (op tab V)))
+    : list (res (tab * out tab V)) :=
     match ops with
     | [] => []
     | x :: r =>
@@ -224,8 +346,8 @@ Section Pool.
         end
     end.
 
-  Fixpoint pool_a_run (ts : list tab) (f : nat) (ops : list (xop (op tab)))
-    : list (res (tab * option tab)) :=
+  Fixpoint pool_a_run (ts : list tab) (f : nat) (ops : list (xop (op tab V)))
+    : list (res (tab * out tab V)) :=
     match ops with
     | [] => []
     | x :: r =>
@@ -236,6 +358,46 @@ Section Pool.
             | None => [Err E_Index]
             end
         | Err k => [Err k]
+        end
+    end.
+
+  (* ---- going on after a caught ValueError (see m_stepx) ---- *)
+  Definition pool_fail (heal : bool) (objs : list (obj tab)) (f : nat) (x : xop (op tab V)) : list (obj tab) :=
+    match x with
+    | XOn p => match nth_error objs f with
+               | Some o => replace_nth f (fail_obj tab V ids1 ids2 heal o p) objs
+               | None => objs
+               end
+    | _ => objs
+    end.
+
+  Fixpoint pool_m_runx (heal : bool) (objs : list (obj tab)) (f : nat) (ops : list (xop (op tab V)))
+    : list (res (tab * out tab V)) :=
+    match ops with
+    | [] => []
+    | x :: r =>
+        match pool_m_step objs f x with
+        | Ok (objs', f', out) =>
+            match nth_error objs' f' with
+            | Some o => Ok (o_tab o, out) :: pool_m_runx heal objs' f' r
+            | None => [Err E_Index]
+            end
+        | Err k => Err k :: (if k =? E_Value then pool_m_runx heal (pool_fail heal objs f x) f r else [])
+        end
+    end.
+
+  Fixpoint pool_a_runx (ts : list tab) (f : nat) (ops : list (xop (op tab V)))
+    : list (res (tab * out tab V)) :=
+    match ops with
+    | [] => []
+    | x :: r =>
+        match pool_a_step ts f x with
+        | Ok (ts', f', out) =>
+            match nth_error ts' f' with
+            | Some t => Ok (t, out) :: pool_a_runx ts' f' r
+            | None => [Err E_Index]
+            end
+        | Err k => Err k :: (if k =? E_Value then pool_a_runx ts f r else [])
         end
     end.
 End Pool.
@@ -269,12 +431,78 @@ Definition g_sub2 (snap req : list Z) (t : gtab) : res gtab :=
 (* what read(samples=ss, variants=vs) loads from a file holding [file]: file order *)
 Definition keep_by (ids : option (list Z)) (x : Z) : bool :=
   match ids with Some l => memZ x l | None => true end.
+(* read(variants=vs) preallocates len(vs) records and stops when they are filled: of the
+   matching records only the first len(vs) are loaded (visible only when an ID occurs more
+   than once in the file; the harness passes duplicate-free sets) *)
+Fixpoint take_mask (n : nat) (m : list bool) : list bool :=
+  match m with
+  | [] => []
+  | false :: r => false :: take_mask n r
+  | true :: r => match n with O => false :: take_mask O r | S k => true :: take_mask k r end
+  end.
 Definition g_restrict (ss vs : option (list Z)) (file : gtab) : gtab :=
   let km := map (keep_by ss) (g_samples file) in
-  let kv := map (fun x => keep_by vs (vid x)) (g_variants file) in
+  let kv := match vs with
+            | Some l => take_mask (length l) (map (fun x => memZ (vid x) l) (g_variants file))
+            | None => map (fun _ => true) (g_variants file)
+            end in
   mkg (filter_mask km (g_samples file)) (filter_mask kv (g_variants file))
       (map (filter_mask kv) (filter_mask km (g_rows file))) (g_planes file)
       (option_map (fun a => map (filter_mask kv) (filter_mask km a)) (g_anc file)).
+
+(* ---- read-only by-ID queries on a genotypes object ---- *)
+
+Inductive gview :=
+| GVSim (ids : list Z) (pt : list Z)     (* PhenoSimulator.run: the effects found, the phenotype of every sample *)
+| GVTrans (r : option (list Z)).         (* Haplotypes.transform: per sample strand1 + 2*strand2; None = IndexError *)
+
+(* PhenoSimulator(g).run(effects, environment=0, normalize=False) with beta(v_k) = 4^k:
+   gens = g.subset(variants=ids); pt = (betas * gens.data[:, :, :2].sum(axis=2)).sum(axis=1) *)
+Fixpoint weighted (vs : list variant) (row : list cell) : Z :=
+  match vs, row with
+  | v :: vs', c :: row' => 4 ^ (vid v) * (ca c + cb c) + weighted vs' row'
+  | _, _ => 0
+  end.
+Definition sim_view (t : gtab) : gview :=
+  GVSim (map vid (g_variants t)) (map (weighted (g_variants t)) (g_rows t)).
+
+(* one haplotype whose variant lines are [req] (distinct), allele = first ALT:
+   gts = g.subset(variants=req); every requested line needs a column (else IndexError);
+   strand k of a sample carries the haplotype iff all its alleles there are 1 *)
+Fixpoint dedup_from (seen l : list Z) : list Z :=
+  match l with
+  | [] => []
+  | x :: r => if memZ x seen then dedup_from seen r else x :: dedup_from (x :: seen) r
+  end.
+Definition trans_view (nreq : nat) (t : gtab) : gview :=
+  GVTrans (if Nat.eqb (length (g_variants t)) nreq then
+             Some (map (fun row => (if forallb (fun c => ca c =? 1) row then 1 else 0)
+                                   + 2 * (if forallb (fun c => cb c =? 1) row then 1 else 0)) (g_rows t))
+           else None).
+
+(* Genotypes.merge_variants(objs): ValueError unless all objects list the same samples; variants
+   and data concatenated along the variant axis; when 2-plane and 3-plane arrays are mixed the
+   2-plane ones get a phase plane of ones.  (GenotypesAncestry.merge_variants is not implemented.) *)
+Fixpoint zipapp {A} (a b : list (list A)) : list (list A) :=
+  match a, b with
+  | x :: a', y :: b' => (x ++ y) :: zipapp a' b'
+  | _, _ => []
+  end.
+Definition E_Runtime : Z := 17.
+Definition g_merge (ts : list gtab) : res gtab :=
+  match ts with
+  | [] => Err E_Index
+  | t0 :: r =>
+      if existsb (fun t => match g_anc t with Some _ => true | None => false end) ts then Err E_Runtime
+      else if forallb (fun t => list_eqb Z.eqb (g_samples t) (g_samples t0)) r then
+        let mixed := existsb (fun t => g_planes t =? 3) ts && existsb (fun t => negb (g_planes t =? 3)) ts in
+        let cells t := if mixed && negb (g_planes t =? 3)
+                       then map (map (fun c => gc (ca c) (cb c) 1)) (g_rows t) else g_rows t in
+        Ok (mkg (g_samples t0) (concat (map g_variants ts))
+                (fold_right (fun t acc => zipapp (cells t) acc) (map (fun _ => []) (g_samples t0)) ts)
+                (if mixed then 3 else g_planes t0) None)
+      else Err E_Value
+  end.
 
 Section Geno.
   Variable T : Type.                      (* MAF thresholds *)
@@ -289,13 +517,22 @@ Section Geno.
   | GIndex (s v : bool)
   | GCheckMissing                         (* discard_also=True *)
   | GCheckBiallelic                       (* discard_also=True *)
-  | GCheckMaf (th : T).                   (* discard_also=True *)
+  | GCheckMaf (th : T)                    (* discard_also=True *)
+  | GCheckMissingN                        (* discard_also=False: ValueError on an offender *)
+  | GCheckBiallelicN
+  | GCheckMafN (th : T)
+  | GCheckSorted
+  | GSim (ids : list Z)                   (* PhenoSimulator(self).run(effects ids) *)
+  | GTransform (vids : list Z).           (* Haplotypes{one haplotype over vids}.transform(self) *)
 
   Definition flag (changed : bool) : act := if changed then Reset else Keep.
   Definition of_qout (q : qout) (t : gtab) : gtab := match q with QOk t' => t' | QRaise _ _ => t end.
   Definition nonempty {A} (l : list A) : bool := match l with [] => false | _ => true end.
 
-  Definition g_interp (p : gop) : op gtab :=
+  Definition raising (q : qout) : res (gtab * act * act) :=
+    match q with QOk t' => Ok (t', Keep, Keep) | QRaise _ _ => Err E_Value end.
+
+  Definition g_interp (p : gop) : op gtab gview :=
     match p with
     | GRead ss vs =>
         Mut (fun _ => Ok (g_restrict ss vs file, flag (negb legacy), flag (negb legacy)))
@@ -311,18 +548,29 @@ Section Geno.
     | GCheckMaf th =>
         Mut (fun t => Ok (of_qout (check_maf (rare th) true true false t) t, Keep,
                           flag (nonempty (rare_idx (rare th) t))))
+    | GCheckMissingN => Mut (fun t => raising (check_missing anc false t))
+    | GCheckBiallelicN => Mut (fun t => raising (check_biallelic false t))
+    | GCheckMafN th => Mut (fun t => raising (check_maf (rare th) true false false t))
+    | GCheckSorted => Mut (fun t => raising (check_sorted t))
+    | GSim ids => Look None (Some ids) sim_view
+    | GTransform vids => Look None (Some (dedup_from [] vids)) (trans_view (length (dedup_from [] vids)))
     end.
 
   Definition g_empty : gtab := mkg [] [] [] 0 (if anc then Some [] else None).
   Definition g_init : obj gtab := mko g_empty None None.
 
-  Definition gm_run (ops : list gop) := m_run gtab g_ids1 g_ids2 g_sub1 g_sub2 g_init (map g_interp ops).
-  Definition ga_run (ops : list gop) := a_run gtab g_ids1 g_ids2 g_sub1 g_sub2 g_empty (map g_interp ops).
-  (* histories over the object and the copies its subsets return *)
+  Definition gm_run (ops : list gop) := m_run gtab gview g_ids1 g_ids2 g_sub1 g_sub2 g_init (map g_interp ops).
+  Definition ga_run (ops : list gop) := a_run gtab gview g_ids1 g_ids2 g_sub1 g_sub2 g_empty (map g_interp ops).
+  (* histories over the object, the copies its subsets return and the objects merge_variants builds *)
   Definition gm_prun (ops : list (xop gop)) :=
-    pool_m_run gtab g_ids1 g_ids2 g_sub1 g_sub2 [g_init] 0 (map (xmap g_interp) ops).
+    pool_m_run gtab gview g_ids1 g_ids2 g_sub1 g_sub2 g_merge [g_init] 0 (map (xmap g_interp) ops).
   Definition ga_prun (ops : list (xop gop)) :=
-    pool_a_run gtab g_ids1 g_ids2 g_sub1 g_sub2 [g_empty] 0 (map (xmap g_interp) ops).
+    pool_a_run gtab gview g_ids1 g_ids2 g_sub1 g_sub2 g_merge [g_empty] 0 (map (xmap g_interp) ops).
+  (* the same, going on after every caught ValueError; [heal]: index() as repaired *)
+  Definition gm_prunx (heal : bool) (ops : list (xop gop)) :=
+    pool_m_runx gtab gview g_ids1 g_ids2 g_sub1 g_sub2 g_merge heal [g_init] 0 (map (xmap g_interp) ops).
+  Definition ga_prunx (ops : list (xop gop)) :=
+    pool_a_runx gtab gview g_ids1 g_ids2 g_sub1 g_sub2 g_merge [g_empty] 0 (map (xmap g_interp) ops).
 End Geno.
 
 Arguments GRead {T} ss vs.
@@ -331,6 +579,12 @@ Arguments GIndex {T} s v.
 Arguments GCheckMissing {T}.
 Arguments GCheckBiallelic {T}.
 Arguments GCheckMaf {T} th.
+Arguments GCheckMissingN {T}.
+Arguments GCheckBiallelicN {T}.
+Arguments GCheckMafN {T} th.
+Arguments GCheckSorted {T}.
+Arguments GSim {T} ids.
+Arguments GTransform {T} vids.
 
 (* ======================================================================== *)
 (* Phenotypes / Covariates                                                   *)
@@ -359,13 +613,20 @@ Definition p_restrict (ss : option (list Z)) (file : ptab) : ptab :=
 Section Pheno.
   Variable file : ptab.
   Variable legacy : bool.
+  (* Phenotypes.append(name, ...) registers the name in an existing name index,
+       if self._name_idx is not None: self._name_idx[name] = len(self.names)
+     also when the object already holds a phenotype of that name: the index then answers for the
+     new column while a freshly built one reports the duplicate.  [fixapp = true]: the repaired
+     append discards the name index in that case. *)
+  Variable fixapp : bool.
 
   Inductive pop :=
   | PRead (ss : option (list Z))
   | PSubset (ss ns : option (list Z)) (inplace : bool)
   | PIndex (s n : bool)
   | PCheckMissing                          (* discard_also=True: rows holding -9 go *)
-  | PAppend (name : Z) (col : list Z).
+  | PAppend (name : Z) (col : list Z)
+  | PCheckMissingN.                        (* discard_also=False: ValueError when a row holds -9 *)
 
   Definition row_missing (r : list Z) : bool := existsb (fun x => x =? -9) r.
   Fixpoint append_col (rows : list (list Z)) (col : list Z) : list (list Z) :=
@@ -374,7 +635,7 @@ Section Pheno.
     | _, _ => []
     end.
 
-  Definition p_interp (p : pop) : op ptab :=
+  Definition p_interp (p : pop) : op ptab unit :=
     match p with
     | PRead ss =>
         Mut (fun _ => Ok (p_restrict ss file,
@@ -393,18 +654,28 @@ Section Pheno.
         (* np.concatenate raises ValueError when the column has the wrong length *)
         Mut (fun t =>
           if Nat.eqb (length col) (length (p_rows t)) then
-            Ok (mkp (p_samples t) (p_names t ++ [name]) (append_col (p_rows t) col), Keep, Push name)
+            Ok (mkp (p_samples t) (p_names t ++ [name]) (append_col (p_rows t) col), Keep,
+                if fixapp && memZ name (p_names t) then Reset else Push name)
           else Err E_Value)
+    | PCheckMissingN =>
+        Mut (fun t => if existsb (fun b => b) (map row_missing (p_rows t)) then Err E_Value
+                      else Ok (t, Keep, Keep))
     end.
 
   Definition p_empty : ptab := mkp [] [] [].
   Definition p_init : obj ptab := mko p_empty None None.
-  Definition pm_run (ops : list pop) := m_run ptab p_ids1 p_ids2 p_sub1 p_sub2 p_init (map p_interp ops).
-  Definition pa_run (ops : list pop) := a_run ptab p_ids1 p_ids2 p_sub1 p_sub2 p_empty (map p_interp ops).
+  (* there is no merge of phenotypes objects *)
+  Definition p_merge (ts : list ptab) : res ptab := Err E_Runtime.
+  Definition pm_run (ops : list pop) := m_run ptab unit p_ids1 p_ids2 p_sub1 p_sub2 p_init (map p_interp ops).
+  Definition pa_run (ops : list pop) := a_run ptab unit p_ids1 p_ids2 p_sub1 p_sub2 p_empty (map p_interp ops).
   Definition pm_prun (ops : list (xop pop)) :=
-    pool_m_run ptab p_ids1 p_ids2 p_sub1 p_sub2 [p_init] 0 (map (xmap p_interp) ops).
+    pool_m_run ptab unit p_ids1 p_ids2 p_sub1 p_sub2 p_merge [p_init] 0 (map (xmap p_interp) ops).
   Definition pa_prun (ops : list (xop pop)) :=
-    pool_a_run ptab p_ids1 p_ids2 p_sub1 p_sub2 [p_empty] 0 (map (xmap p_interp) ops).
+    pool_a_run ptab unit p_ids1 p_ids2 p_sub1 p_sub2 p_merge [p_empty] 0 (map (xmap p_interp) ops).
+  Definition pm_prunx (heal : bool) (ops : list (xop pop)) :=
+    pool_m_runx ptab unit p_ids1 p_ids2 p_sub1 p_sub2 p_merge heal [p_init] 0 (map (xmap p_interp) ops).
+  Definition pa_prunx (ops : list (xop pop)) :=
+    pool_a_runx ptab unit p_ids1 p_ids2 p_sub1 p_sub2 p_merge [p_empty] 0 (map (xmap p_interp) ops).
 End Pheno.
 
 (* ======================================================================== *)
@@ -523,4 +794,79 @@ Section Haps.
     end.
 
   Definition h_init : hobj := mkho [] None.
+
+  (* ---- several objects: the copies subset(inplace=False) returns (each has been given its own
+     type_ids by index(force=True)) and the objects Haplotypes.merge builds (ValueError when two
+     records share an ID; index() on the new object).  A ValueError is caught and the history
+     goes on - a failed merge has not changed any object.                                   *)
+  Inductive hxop := HXOn (p : hop) | HXSwitch (k : nat) | HXMerge (ks : list nat).
+
+  Definition h_merge (ds : list (list hrec)) : res (list hrec) :=
+    let d := concat ds in if nodupZ (map h_id d) then Ok d else Err E_Value.
+
+  Definition h_new (r : hout) : list hobj :=
+    match r with HCopy d => [mkho d (Some (type_ids_of d))] | _ => [] end.
+  Definition h_newd (r : hout) : list (list hrec) :=
+    match r with HCopy d => [d] | _ => [] end.
+
+  Definition hp_m_step (objs : list hobj) (f : nat) (x : hxop) : res (list hobj * nat * hout) :=
+    match x with
+    | HXSwitch k => match nth_error objs k with Some _ => Ok (objs, k, HNone) | None => Err E_Index end
+    | HXOn p =>
+        match nth_error objs f with
+        | None => Err E_Index
+        | Some o => bind (hm_step o p) (fun r => let '(o', out) := r in
+                      Ok (replace_nth f o' objs ++ h_new out, f, out))
+        end
+    | HXMerge ks =>
+        match pick objs ks with
+        | None => Err E_Index
+        | Some os => bind (h_merge (map ho_data os)) (fun d =>
+                       Ok (objs ++ [mkho d (Some (type_ids_of d))], f, HCopy d))
+        end
+    end.
+
+  Definition hp_a_step (ds : list (list hrec)) (f : nat) (x : hxop) : res (list (list hrec) * nat * hout) :=
+    match x with
+    | HXSwitch k => match nth_error ds k with Some _ => Ok (ds, k, HNone) | None => Err E_Index end
+    | HXOn p =>
+        match nth_error ds f with
+        | None => Err E_Index
+        | Some d => bind (ha_step d p) (fun r => let '(d', out) := r in
+                      Ok (replace_nth f d' ds ++ h_newd out, f, out))
+        end
+    | HXMerge ks =>
+        match pick ds ks with
+        | None => Err E_Index
+        | Some l => bind (h_merge l) (fun d => Ok (ds ++ [d], f, HCopy d))
+        end
+    end.
+
+  Fixpoint hp_m_run (objs : list hobj) (f : nat) (ops : list hxop) : list (res (list hrec * hout)) :=
+    match ops with
+    | [] => []
+    | x :: r =>
+        match hp_m_step objs f x with
+        | Ok (objs', f', out) =>
+            match nth_error objs' f' with
+            | Some o => Ok (ho_data o, out) :: hp_m_run objs' f' r
+            | None => [Err E_Index]
+            end
+        | Err k => Err k :: (if k =? E_Value then hp_m_run objs f r else [])
+        end
+    end.
+
+  Fixpoint hp_a_run (ds : list (list hrec)) (f : nat) (ops : list hxop) : list (res (list hrec * hout)) :=
+    match ops with
+    | [] => []
+    | x :: r =>
+        match hp_a_step ds f x with
+        | Ok (ds', f', out) =>
+            match nth_error ds' f' with
+            | Some d => Ok (d, out) :: hp_a_run ds' f' r
+            | None => [Err E_Index]
+            end
+        | Err k => Err k :: (if k =? E_Value then hp_a_run ds f r else [])
+        end
+    end.
 End Haps.
